@@ -549,7 +549,10 @@ class Store:
 
     def _merge_subtopology(self, subtopology):
         """Merge a new subtopology with the store's existing one."""
-        self.subtopology = deep_merge(self.subtopology, subtopology)
+        # (a copy, as for the sub-schema: ``subtopology`` is part of the
+        # topology of the process that is wired this way)
+        self.subtopology = deep_merge(
+            self.subtopology, deep_copy_internal(subtopology))
 
     def _apply_subschema_config(self, subschema):
         """Merge a new subschema config with the current subschema."""
